@@ -55,6 +55,39 @@ func retrySelfTest() []Step {
 	} {
 		steps = append(steps, Step{Line: "retry.selftest\t" + data + "\t" + t[1], Go: t[2], Desc: "oracle self-test: " + t[0], Tags: []string{"selftest"}, Trivial: true})
 	}
+	// the per-connection waiver of the eof_complete clause: the k-th request is answered by the k-th
+	// connection; a clean EOF short of the file is tolerated only while the current connection has a clean
+	// early end that the reader cannot see.
+	drop3 := rConn{Cut: 3, End: "f"}
+	clean := func(cut, status int) rConn { return rConn{Cut: cut, End: "c", Status: status} }
+	whole := rConn{Cut: -1, End: "c"}
+	for _, t := range []struct {
+		name, kind string
+		script     []rConn
+		trace, want string
+	}{
+		{"restart on 200 ends cleanly before the resume offset (evident), reported as clean EOF", "i", []rConn{drop3, clean(2, 0)},
+			"I200;q- bo r616263:o bf q3 bo be r:e", "fail:event-7-r:e"},
+		{"restart on 200 ends cleanly before the resume offset (evident), reported as an error", "i", []rConn{drop3, clean(2, 0)},
+			"I200;q- bo r616263:o bf q3 bo be r:x", "pass"},
+		{"forced 200 from a server that honours Range, empty clean body (evident), reported as clean EOF", "h", []rConn{drop3, clean(0, 200)},
+			"I200;q- bo r616263:o bf q3 be r:e", "fail:event-6-r:e"},
+		{"restart on 200 ends cleanly exactly at the resume offset (invisible): waived", "i", []rConn{drop3, clean(3, 0)},
+			"I200;q- bo r616263:o bf q3 bo be r:e", "pass"},
+		{"206 ends cleanly after one byte (invisible): waived", "h", []rConn{drop3, clean(1, 0)},
+			"I200;q- bo r616263:o bf q3 bo r64:o be r:e", "pass"},
+		{"first response ends cleanly after two bytes (invisible): waived", "h", []rConn{clean(2, 0)},
+			"I200;q- bo r6162:o be r:e", "pass"},
+		{"the waiver ends with its connection: short clean EOF on the complete connection that replaced it", "h", []rConn{clean(2, 0), whole},
+			"I200;q- bo r6162:o c bf q2 bo r6364:o be r:e", "fail:event-9-r:e"},
+		{"a waived connection still may not duplicate bytes", "h", []rConn{clean(2, 0)},
+			"I200;q- bo r6162:o bo r6263:o be r:e", "fail:event-4-r6263:o"},
+		{"an evident early end behind a later complete connection does not matter", "i", []rConn{drop3, clean(2, 0), whole},
+			"I200;q- bo r616263:o bf q3 bo be r:x bf q3 bo bo r646566:o be r:e", "pass"},
+	} {
+		steps = append(steps, Step{Line: "retry.selftest\t" + t.kind + "\t" + data + "\t" + retryScriptProto(t.script) + "\t" + t.trace, Go: t.want,
+			Desc: "oracle self-test: " + t.name, Tags: []string{"selftest"}, Trivial: true})
+	}
 	return steps
 }
 
